@@ -262,6 +262,12 @@ impl VerifyingKey {
     pub fn from_sec1_bytes(b: &[u8]) -> Result<Self, PasetoError> {
         let g = unsafe { ConstPointer::new_static(EC_group_p384())? };
 
+        // compressed or uncompressed SEC1 only: the one-byte encoding of the point at infinity
+        // is not a public key
+        if b.len() != 49 && b.len() != 97 {
+            return Err(PasetoError::InvalidKey);
+        }
+
         let mut p = LcPtr::new(unsafe { EC_POINT_new(*g) })?;
         if unsafe { EC_POINT_oct2point(*g, *p.as_mut(), b.as_ptr(), b.len(), null_mut()) } != 1 {
             return Err(PasetoError::InvalidKey);
